@@ -4,9 +4,17 @@ import glob
 import json
 
 NOTES = {
-    "C16-m3": "MISSED. The bounded cache only clear()s itself once 64 triangles are cached; none of the 42 API runs of the check "
-              "reaches 64 entries, so the 'shared caches are insert-only' obligation never sees the removal. Needs a history that "
-              "fills the cache first (outside the bound: one call per run).",
+    "C16-m3": "Caught by C16 since the 'api-hot' jobs were added (all 240 resolution-2 cells are converted under the hooks, the bounded cache "
+              "clears itself, the insert-only obligation fails, and the replay scheduler reproduces the KeyError from a full cache). Missed before that.",
+    "C02-m2": "Caught by C17 (origin-table two-call histories over all 12x12 face pairs, solver-decided). C02's own skeleton harness explores each "
+              "(face, segment) from the same module state and cannot see a memo; an earlier version 'caught' it only through state leaking between paths.",
+    "C18-m3": "Caught by C18 (E): the exactness premise of the digit loop (round() is modelled as a +-0.5e-6 contract), witness replayed with "
+              "digit-pattern-directed indices at levels 19..28.",
+    "C18-m4": "Caught by C07 (child/parent pentagon overlap on the enumerated one-level drift set); C18's round trips are unaffected because the reversed table is derived from the edited one.",
+    "C18-m5": "Caught by C07 (drift lemma for the invert_j orientations).",
+    "C10-m5": "Caught by C17 (two-call history uncompact2;uncompact2 across the aperture change, solver-decided).",
+    "C06-m6": "Caught by C17 (cell_to_children / cell_to_children2 histories on the world cell).",
+    "C08-m6": "Caught by C08 (two sibling groups of different faces in one input) and by C17 (compact;compact history).",
     "C17-m2": "MISSED. 'same face as last time' fast path with a threshold 0.07 degrees too wide: history-dependent only for query "
               "points in an 8 km sliver just outside a face edge at resolution >= 12; the long-history differential (random points) "
               "does not hit the sliver and the numeric face test is outside what the solver can decide (haversine on computed values).",
